@@ -22,7 +22,7 @@ func init() {
 			"T2 allocation and work proportional to declared sizes: make / Grow whose size derives from a decoded integer wider than 8 bits, and loop bounds of loops that hash or allocate whose bound derives from a decoded 64-bit integer, must be dominated by an ordering comparison of that value with a constant or a length (32-bit decoded sizes are accepted as type-bounded for loop trip counts, not for allocations). " +
 			"T1 a repo function that returns a bare pointer and has a `return nil` path (the fixed-size decoders refuse short input that way) has its result nil-checked before every dereference. T4 every function of W with constant offsets into a []byte parameter has a sufficient length guard. T5 no explicit panic / Must* on non-constant input in W (one named suppression: a compile-time table check). " +
 			"T7 narrow arithmetic: a multiplication of a decoded count by a constant element size carried out in 32 bits or less and feeding a comparison, a slice bound, an index or an allocation must be done after widening to 64 bits or be dominated by an upper-bound check of the count (sums of decoded offsets and sizes are validated relationally elsewhere and are not decided here). " +
-			"T9 the page loops of the SEV measurement run only after the address-range/alignment check returned nil. " +
+			"T9 the page loops of the SEV measurement run only after the address-range/alignment check returned nil, and that check returns nil only behind every one of its tests (no bypassing return). " +
 			"T10 sentinel index: the result of a bytes/strings/slices Index-family search (−1 = not found) used as an index, slice bound or allocation size needs a dominating sign test of that very value. T11 x[len(x)−k] / x[:len(x)−k] needs a dominating condition on that very slice value establishing len(x) ≥ k (one named suppression with reason in C07). T12 +,−,*,<< on a decoded operand carried out in fewer bits than the integer type its result is then converted to needs a dominating upper bound of the operand. T13 (ESP) a []byte sliced at bounds that move with a loop counter, in a loop that runs up to a value not computed from the buffer's length, is reached only on paths where executed checks relate that value to the buffer length through some chain of comparisons (decides that a relating chain exists, not that it is arithmetically sufficient). " +
 			"T14 (ESP) lock step: where an index saved from a loop is used after the loop to index a slice field that the loop appends to, every iteration of that loop appends to the field exactly once on every path. " +
 			"Not covered: general absence of panics for non-constant indices (would need a relational numeric domain sound under wrap-around), wall-time bounds as numbers.",
@@ -114,6 +114,57 @@ func runC08(c *Ctx) {
 			}
 		}
 		c.S.Floor("T9", "address-range check functions in package sev", 1, len(checkers))
+		// T9b: the check returning nil means that every one of its tests was evaluated and passed — no
+		// nil return bypasses a test (an early `return nil` would let unaligned sizes reach the page loop)
+		guardCheckers := map[*ssa.Function]bool{}
+		for _, f := range fns {
+			if load.RelPkg(f) != "sev" {
+				continue
+			}
+			hasPageLoop := false
+			for _, L := range naturalLoops(f) {
+				for lb := range L.Body {
+					for _, in := range lb.Instrs {
+						if call, ok := in.(*ssa.Call); ok {
+							if cal := call.Call.StaticCallee(); cal != nil && cal.Signature.Recv() != nil && namedIs(cal.Signature.Recv().Type(), repoPath("sev"), "SnpMeasurement") && strings.HasSuffix(cal.Name(), "4K") {
+								hasPageLoop = true
+							}
+						}
+					}
+				}
+			}
+			if hasPageLoop {
+				for _, call := range callsIn(f, func(call ssa.CallInstruction) bool { return checkers[call.Common().StaticCallee()] }) {
+					guardCheckers[call.Common().StaticCallee()] = true
+				}
+			}
+		}
+		for ck := range guardCheckers {
+			var errChecks, nilRets []*ssa.BasicBlock
+			for _, b := range ck.Blocks {
+				switch last := b.Instrs[len(b.Instrs)-1].(type) {
+				case *ssa.If:
+					for _, sc := range b.Succs {
+						if ret, ok := sc.Instrs[len(sc.Instrs)-1].(*ssa.Return); ok && len(ret.Results) == 1 && !isNilK(ret.Results[0]) && len(sc.Preds) == 1 {
+							errChecks = append(errChecks, b)
+						}
+					}
+				case *ssa.Return:
+					if len(last.Results) == 1 && isNilK(last.Results[0]) {
+						nilRets = append(nilRets, b)
+					}
+				}
+			}
+			okAll := len(nilRets) > 0
+			for _, r := range nilRets {
+				for _, e := range errChecks {
+					if !e.Dominates(r) {
+						okAll = false
+					}
+				}
+			}
+			c.S.Check(okAll, "T9", load.FuncName(ck)+":all tests before success", c.pos(ck.Pos()), fmt.Sprintf("every nil return is behind all %d tests of the check", len(errChecks)), "the range/alignment check can return nil without having evaluated all of its tests: the page loop's slicing relies on every one of them")
+		}
 		for _, f := range fns {
 			if load.RelPkg(f) != "sev" {
 				continue
